@@ -36,7 +36,9 @@ type Real32 struct {
 var Real32Type ScalarType = NewReal32(0.0).Type()
 func init() {
   f := func(value float64) Scalar { return NewReal32(float32(value)) }
+  g := func(value float64) MagicScalar { return NewReal32(float32(value)) }
   RegisterScalar(Real32Type, f)
+  RegisterMagicScalar(Real32Type, g)
 }
 /* constructors
  * -------------------------------------------------------------------------- */
